@@ -332,6 +332,12 @@ fn wire_stop_hooks(puppets: &[Box<dyn PuppetCtl>]) {
                 }));
             }
         }
+        if let Some(j) = p.on_pull() {
+            if let Some(other) = puppets.iter().find(|q| q.id() == j && q.id() != p.id()) {
+                let other = other.clone_ctl();
+                p.set_pull_hook(Arc::new(move || other.greet_all()));
+            }
+        }
     }
 }
 
@@ -632,5 +638,5 @@ pub fn gen_puppet_spec(c: &mut Chooser, allow_late: bool, modes: &[Mode], fins: 
         fin = Fin::End;
     }
     let burst = if mode == Mode::Listen && c.chance(1, 3) { 1 + c.choose(3) } else { 0 };
-    PuppetSpec { mode, late, fin, burst, eager_end: false, per_pull: 1, on_stop: None, feedback: None }
+    PuppetSpec { mode, late, fin, burst, eager_end: false, per_pull: 1, on_stop: None, feedback: None, on_pull: None }
 }
